@@ -132,6 +132,12 @@ def onOpened (w : World) (aw : AddrWorld) (toks : List String) : World × AddrWo
   match aw.last with
   | none => (w, aw)
   | some (root, path) =>
+    -- an instance that cannot resolve the access controller (type not registered here, write-list block
+    -- not retrievable) must refuse: a store under any other write list admits writers the database never had
+    if (w.pending.getLast?.getD "").startsWith "blind=" then
+      (if toks.getD 2 "" == "err" then w else
+        (w.fail "C03" "resolve" s!"peer {q} opened {root}/{path} although its access controller could not be resolved ({w.pending.getLast?.getD ""}); the store's write list is {arg toks "write"}").fail "C14" "acl" s!"peer {q} opened {root}/{path} although its access controller could not be resolved: write list {arg toks "write"}", aw)
+    else
     let haveLocal := aw.local_.contains (q, root)
     let expectOk := !localonly || haveLocal
     let st0 := aw.ocState q
